@@ -267,6 +267,7 @@ def run(prog, chk):
     chk.ob("R6.load-skips-invalid-lines", "load", len(skip) == 1 and unparse(skip[0].type) == "SSHException" and all(isinstance(s, ast.Continue) for s in skip[0].body),
            ld.loc, "a line that fails to parse is skipped, the rest is still read")
     _add_replaces_same_type_only(prog, chk)
+    _to_line_from_current_fields(prog, chk)
 
 
 def _add_replaces_same_type_only(prog, chk):
@@ -310,3 +311,15 @@ def _add_replaces_same_type_only(prog, chk):
             if (kind != "return" or after != want) and bad is None:
                 bad = "existing entries %s: afterwards %s, want %s" % (["%s/%s" % ("lists-host" if l else "other-host", "same-type" if s_ else "other-type") for (l, s_) in combo], after, want)
     chk.ob("R5.add-replaces-same-host-and-type-only", "HostKeys.add", bad is None, f.loc, "%d placements evaluated%s" % (n, "" if bad is None else "; first failing: " + bad))
+
+
+def _to_line_from_current_fields(prog, chk):
+    """R2b: what save() writes for an entry is computed from the entry's *current* names and key.  The line writer reads no
+    other state of the entry (a remembered copy of the text it was parsed from goes stale as soon as add() / a SubDict
+    assignment replaces the key, and the old key comes back on reload)."""
+    f = prog.func("HostKeyEntry.to_line")
+    reads = sorted(set(x.attr for x in walk_no_defs(f.node) if isinstance(x, ast.Attribute) and isinstance(x.value, ast.Name) and x.value.id == f.params()[0]))
+    allowed = {"valid", "hostnames", "key"}
+    extra = [r for r in reads if r not in allowed]
+    chk.ob("R2.line-written-from-current-fields", "HostKeyEntry.to_line", not extra and {"hostnames", "key"} <= set(reads), f.loc,
+           "reads self.%s%s" % (", self.".join(reads), "" if not extra else " - %s is not the entry's current names / key" % extra))
